@@ -184,3 +184,48 @@ def check_requires(ctx, prop):
             ctx.check(outs == want, prop + ".REQ", fn.key, "requirements-checked:" + ("all-present" if not missing else "missing:" + ",".join(m.split("::")[-1] for m in missing)),
                       "with %s missing (it asks for %s): require() yields %s, expected %s" % (missing or "nothing", sorted(set(map(str, asked))), outs, want), loc=fn.loc())
     ctx.count("require_scenarios", n)
+
+
+# ------------------------------------------------------------------ execute() of the operators = the operator trait's driver
+DRIVERS = {
+    "mahf::components::selection::Selection": "mahf::components::selection::selection",
+    "mahf::components::replacement::Replacement": "mahf::components::replacement::replacement",
+    "mahf::components::recombination::Recombination": "mahf::components::recombination::recombination",
+    "mahf::components::initialization::Initialization": "mahf::components::initialization::initialization",
+    "mahf::components::boundary::BoundaryConstraint": "mahf::components::boundary::boundary_constraint",
+    "mahf::components::mutation::Mutation": "mahf::components::mutation::mutation",
+}
+DELEGATION_PROPS = {"C11": ["mahf::components::selection::Selection"], "C12": ["mahf::components::replacement::Replacement"],
+                    "C13": ["mahf::components::recombination::Recombination", "mahf::components::mutation::Mutation"],
+                    "C14": ["mahf::components::initialization::Initialization", "mahf::components::boundary::BoundaryConstraint"]}
+
+
+def check_delegations(ctx, prop, floor):
+    """K6: the rules of this property decide the operator driver and every operator's trait method; what a template runs is
+    the operator's `Component::execute`.  For every type implementing the operator trait: execute(self, problem, state) calls
+    the trait's driver exactly once, with exactly (self, problem, state), and returns its result."""
+    F = ctx.facts
+    n = 0
+    for trait in DELEGATION_PROPS.get(prop, []):
+        driver = DRIVERS[trait]
+        adts = sorted({fn.impl_self_adt for fn in F.all_fns if fn.impl_trait == trait and fn.impl_self_adt})
+        for adt in adts:
+            ex = F.fn_opt("<%s as mahf::components::Component>::execute" % adt)
+            if ex is None:
+                continue
+            seen = []
+
+            def oracle(interp, env, f, args, t, bb, path):
+                if f.get("key") == driver:
+                    seen.append(tuple(getattr(load(interp, env, a), "tag", "?") for a in args))
+                    return Sym("driver-result")
+                return TOP
+            it = install(Interp(ex.body, chain(oracle, coll_oracle, std_oracle), [Sym("self"), Sym("problem"), Sym("state")], facts=F, max_visits=6))
+            ps = it.run()
+            n += 1
+            good = len(ps) == 1 and ps[0].end == "return" and ps[0].ret == Sym("driver-result") and seen == [("self", "problem", "state")]
+            ctx.check(good, prop + ".DRV", ex.key, "executes-through-the-driver",
+                      "execute() calls %s with %s and returns %s; expected exactly one call with (self, problem, state), its result returned"
+                      % (driver.split("::")[-1], seen, [str(p.ret) if p.end == "return" else p.end for p in ps]), loc=ex.loc())
+    ctx.count("operator_executes", n)
+    ctx.floor(prop + ".DRV", "operators executing through their driver", n, floor)
